@@ -44,6 +44,19 @@ def fq12_class(family, p, mc):
     return _cls_cache[k]
 
 
+def fq_class_like(cls, family, p):
+    """the prime-field class of the same family / modulus as the extension class `cls`: the
+    shipped one when `cls` is a shipped class, else an ad-hoc subclass"""
+    import py_ecc.fields as PF
+
+    for name in ("bn128", "bls12_381"):
+        pre = ("optimized_" if family == "opt" else "") + name + "_"
+        for kind in ("FQ2", "FQ12", "FQP"):
+            if getattr(PF, pre + kind, None) is cls:
+                return getattr(PF, pre + "FQ")
+    return fq_class(family, p)
+
+
 class Cfg:
     """One field configuration: library class + model field + converters."""
 
@@ -70,6 +83,14 @@ class Cfg:
         if self.mc is None:
             return self.cls(v)
         return self.cls(list(v))
+
+    def lib_fq(self, v):
+        """model value -> library element whose coefficients are same-family FQ *objects* instead
+        of ints (a constructor form the classes accept and keep); for prime fields == lib()"""
+        if self.mc is None:
+            return self.cls(v)
+        FQc = fq_class_like(self.cls, self.family, self.p)
+        return self.cls([FQc(c) for c in v])
 
     def mod(self, x):
         """library element -> model value (reduced).  Raises if x is of the wrong shape."""
@@ -129,14 +150,16 @@ def ref_norm(cfg, P):
     return (cfg.mod(x), cfg.mod(y))
 
 
-def opt_pt(cfg, P, lam=None):
-    """model affine point -> optimized library triple scaled by lam (model element)."""
+def opt_pt(cfg, P, lam=None, fq_coeffs=False):
+    """model affine point -> optimized library triple scaled by lam (model element);
+    fq_coeffs: extension-field coordinates carry FQ objects instead of ints"""
     F = cfg.F
     if lam is None:
         lam = F.one
     if P is None:
         raise ValueError("use explicit infinity representatives")
-    return (cfg.lib(F.mul(P[0], lam)), cfg.lib(F.mul(P[1], lam)), cfg.lib(lam))
+    mk = cfg.lib_fq if fq_coeffs else cfg.lib
+    return (mk(F.mul(P[0], lam)), mk(F.mul(P[1], lam)), mk(lam))
 
 
 def ref_pt(cfg, P):
